@@ -392,12 +392,13 @@ class RetryExecutor(CanCustomizeBind, Executor):
 
                     break
 
-        # This shouldn't be possible.
-        # - Future holds a lock on itself, and has checked that it's not already done
-        # - The only other path for removing a job is in delegate_callback, but the
-        #   job is only removed *after* set_result/set_exception which would wait
-        #   for the future's lock.
-        assert found_job, "Cancel called on orphan %s" % future
+        if not found_job:
+            # The future is not done, yet it has no job: the submit thread has
+            # just removed the job of a future whose retries were already stopped
+            # by an earlier cancel, and is about to resolve the future with the
+            # outcome of its last attempt.  It is too late to cancel.
+            self._log.debug("Could not cancel, future being resolved: %s", future)
+            return False
 
         self._log.debug("Try cancel delegate: %s", found_job)
 
